@@ -330,3 +330,58 @@ func wellFormedLong(r *rand.Rand, format string) []byte {
 	}
 	return buf.Bytes()
 }
+
+// giantText: three records, the middle one with ONE line of about n bytes
+// (a name, a read, SEQ and QUAL, a node label) — longer than any buffer a
+// reader is likely to choose (64 KiB, 1 MiB, 4 MiB).
+func giantText(r *rand.Rand, format string, n int) []byte {
+	var buf bytes.Buffer
+	for i := 0; i < 3; i++ {
+		big := i == 1
+		switch format {
+		case "fasta":
+			rec := genFastaRecord(r, r.IntN(200))
+			if big {
+				rec.Name = randBytesExcl(r, n, fastaNameExcl)
+			}
+			rec.Write(&buf)
+		case "fastq":
+			rec := genFastqRecord(r, r.IntN(100))
+			if big {
+				rec = genFastqRecord(r, n/2)
+			}
+			rec.Write(&buf)
+		case "sam", "samh":
+			if i == 0 && format == "samh" {
+				buf.WriteString("@CO\t" + string(longText(r, n/4, noCRLF)) + "\n")
+			}
+			rec := genSAM(r)
+			if big {
+				rec.Seq, rec.Qual = string(longText(r, n/2, nil)), string(longText(r, n/2, nil))
+				if rec.Tags == nil {
+					rec.Tags = map[string]any{}
+				}
+				rec.Tags["ZZ"] = string(longText(r, 2000, nil))
+			}
+			rec.Write(&buf)
+		case "bed":
+			rec := genBED(r, 12)
+			if big {
+				rec.Name = string(longText(r, n, nil))
+			}
+			rec.Write(&buf)
+		case "newick":
+			root, nodes := randomTree(r, 1+r.IntN(6), r.IntN(4))
+			decorate(r, nodes)
+			if big {
+				nodes[len(nodes)-1].Name = string(randSeq(r, []byte("abcdefghijklmnopqrstuvwxyz_ '"), n))
+			}
+			m, _ := root.MarshalText()
+			buf.Write(m)
+			buf.WriteString("\n")
+		default:
+			panic("giantText: unknown format " + format)
+		}
+	}
+	return buf.Bytes()
+}
